@@ -676,13 +676,27 @@ func runC09E2E(e *Env) {
 		}
 		cases = append(cases, c)
 	}
+	// late hand-over: the sender's race is decided, but the winner reaches the
+	// application only seconds later (the caller of ProbeAndDial is held at
+	// ice.probe.beforeSelect); the receiver has accepted that connection - and
+	// the losers - long before and must still be on the winner when the
+	// sender authenticates (half the receiver's 10 s authentication period at most)
+	for i := 0; i < e.Pick(2, 8); i++ {
+		c := e2eCase{ID: fmt.Sprintf("C09e2e-late-%02d", i), Shape: []string{"onefile", "nested"}[i%2], Seed: vk.Mix(e.Seed + uint64(i)*104729), Addrs: 3 + 2*(i%2), CS: 65536}
+		c.HostEnv = []string{fmt.Sprintf("VERIFHOOK=ice.probe.beforeSelect=sleep(%d)", []int{4000, 5000}[i%2])}
+		if i%4 >= 2 {
+			c.HostArgs = []string{"--total-connections", "1"}
+		}
+		cases = append(cases, c)
+	}
 	runE2ECases(e, cases, 8, func(c e2eCase, r e2eResult, tree vk.Tree, out string) {
 		e.R.Eval()
 		if r.SetupErr != "" {
 			e.R.Inconcl(c.ID + ": " + r.SetupErr)
 			return
 		}
-		e.R.Distinct(fmt.Sprintf("addrs%d/v6%v/oneway%d/%s/steered=%v", c.Addrs, c.V6, c.OneWay, strings.Join(c.HostArgs, " "), len(c.HostEnv) > 0))
+		late := strings.HasPrefix(c.ID, "C09e2e-late-")
+		e.R.Distinct(fmt.Sprintf("addrs%d/v6%v/oneway%d/%s/steered=%v/late-hand-over=%v", c.Addrs, c.V6, c.OneWay, strings.Join(c.HostArgs, " "), len(c.HostEnv) > 0, late))
 		if c.OneWay > 0 {
 			if r.OneWayDropped == 0 {
 				// the rules came too late or the addresses were not used: an ordinary session
@@ -691,7 +705,9 @@ func runC09E2E(e *Env) {
 				e.R.Count("one_way_sessions_with_dropped_datagrams")
 			}
 		}
-		if len(c.HostEnv) > 0 {
+		if late {
+			e.R.Count("sessions_with_late_hand_over")
+		} else if len(c.HostEnv) > 0 {
 			e.R.Count("sessions_with_held_dial_completions")
 		}
 		if sessionOK(r) {
@@ -709,6 +725,8 @@ func runC09E2E(e *Env) {
 		}
 		switch {
 		case c.OneWay > 0:
+		case late:
+			key = fmt.Sprintf("accept:late-hand-over:session-failed:join-exit%d:host-%s", r.JoinExit, r.HostStatus)
 		case r.JoinTimedOut && r.HostStatus == "FAILED":
 			key = "accept:receiver-waits-forever-after-sender-gave-up"
 		case !r.JoinTimedOut && r.JoinExit == 1 && r.HostStatus == "FAILED":
